@@ -15,13 +15,16 @@
     already exists, validation before mutation) and the exact residue otherwise -- the faithful
     model REFUTES the unchanged state for the properties listed by Diag_C09 (witnesses
     C09_*_refuted below, replayed on the implementation by the check).  The quantum bound is
-    proved for the integer conversions (EMU exact via C11_RT, Font.size 1/100 pt); for the float
-    conversions quantize IS the translated code and the bound is checked bit-exactly by the
-    correspondence (partial). *)
+    proved for EMU (exact), Font.size and paragraph spacing (1/100 pt), ST_Percentage (1/100000:
+    crop, gradient stops, lumMod/lumOff) and ST_Angle (1/60000 degree modulo 360: rotation) for every
+    accepted value; for the remaining float conversions (line spacing in lines, gradient angle,
+    adjustments, xsd:double) quantize IS the translated code and the bound is checked bit-exactly by
+    the correspondence only (partial). *)
 From V.lib Require Import Prelude PyFloat PyVal.
 From V.model Require Import SimpleTypeLib Props PropCatalogue.
 From V.proofs Require Import PyFloat_proofs SimpleTypeLib_proofs C11_instance Props_proofs C09_instance.
 From V.gen Require Import GenC11 GenC09.
+From Coq Require Import QArith Qabs.
 
 (** a setter changes nothing outside its declared footprint and keeps the state a tree *)
 Theorem C09_run_frame : forall p v s, WF s ->
@@ -106,6 +109,11 @@ Print Assumptions C09_row_exact.
 Theorem C09_row_ties : Forall tie_ok row_ties.
 Proof. exact row_ties_ok. Qed.
 Print Assumptions C09_row_ties.
+
+(** ... and the value tables of the enumerations carry exactly the tokens of the C11 enumeration lists *)
+Theorem C09_enum_ties : forallb (fun p => strs_same (fst p) (snd p)) enum_ties = true.
+Proof. exact enum_ties_ok. Qed.
+Print Assumptions C09_enum_ties.
 
 (** C09_get_set / C09_none, builder (B): the child is removed, then added again *)
 Theorem C09_get_set_fresh : forall pre post ch c init skip loose absent d,
@@ -214,6 +222,23 @@ Theorem C09_spacing_point_quant : forall z, (0 <= z <= 20116800)%Z ->
   /\ (0 <= z - z / 127 * 127 < 127)%Z.
 Proof. exact spacing_point_quant. Qed.
 Print Assumptions C09_spacing_point_quant.
+
+(** quantum of ST_Percentage (crop_*, gradient stop position, lumMod / lumOff of brightness): for EVERY
+    finite float the simple type accepts, the written text reads back within 1/100000 (the conversions
+    are the translated code; the binary64 model is exact, error bounds proved in Props_proofs) *)
+Theorem C09_percentage_quantum : forall m e s, ST_Percentage__to_xml (PFloat (Fin m e)) = Ok (PStr s) ->
+  exists r, ST_Percentage__from_xml (PStr s) = Ok (PFloat r) /\ f_is_finite r = true
+            /\ (Qabs (Qv r - Qv (Fin m e)) <= 1 # 100000)%Q.
+Proof. exact pct_roundtrip. Qed.
+Print Assumptions C09_percentage_quantum.
+
+(** quantum of ST_Angle (BaseShape.rotation): for EVERY finite float the simple type accepts, the written
+    text reads back within 1/60000 degree of the assigned angle modulo 360 *)
+Theorem C09_angle_quantum : forall m e s, ST_Angle__to_xml (PFloat (Fin m e)) = Ok (PStr s) ->
+  exists r (j : Z), ST_Angle__from_xml (PStr s) = Ok (PFloat r) /\ f_is_finite r = true
+    /\ (Qabs (Qv r - (Qv (Fin m e) - 360 * inject_Z j)) <= 1 # 60000)%Q.
+Proof. exact angle_roundtrip. Qed.
+Print Assumptions C09_angle_quantum.
 
 (** instance *)
 Theorem C09_no_unmodelled : n_unmodelled = 0%nat.
